@@ -550,3 +550,33 @@ def c16_format_complete():
             out.append(rec("C16.saved-format-complete.%s.%s" % (cls, p), ok,
                            "constructor parameter %s (attribute %s, read during simulation) is %s" % (p, attr, " and ".join(why))))
     return out
+
+
+# ---------------------------------------------------------------------------------- C20 arithmetic lemma
+def c20_ceil_lemma():
+    """C20: an automatic task with work D and rate p (remaining work D - p*j after j working steps, finishing at the
+    first step with remaining < tol) occupies exactly ceil(D/p) steps, unless the fractional part of D/p lies in the
+    excluded band (0, tol/p).  Stated over r = D/p and eps = tol/p (quantifier-free mixed integer/real arithmetic)."""
+    import z3
+    r, eps = z3.Reals("r eps")
+    j, c = z3.Ints("j c")
+    first = z3.And(j >= 0, r - z3.ToReal(j) < eps, z3.Or(j == 0, r - z3.ToReal(j - 1) >= eps))       # first j with remaining < tol
+    ceil_is_c = z3.And(z3.ToReal(c) >= r, z3.ToReal(c) - 1 < r)                                       # c = ceil(r)
+    band = z3.And(r - z3.ToReal(j) > 0, r - z3.ToReal(j) < eps)                                        # frac(r) in (0, eps)
+    out = []
+    t0 = time.time()
+    s = z3.Solver()
+    s.set("timeout", 20000)
+    s.add(r >= 0, eps > 0, eps < 1, first, ceil_is_c, z3.Not(band), j != c)
+    res = s.check()
+    out.append({"name": "lemma/C20.steps-equal-ceil-of-duration-over-rate", "kind": "lemma", "result": "unsat" if res == z3.unsat else ("sat" if res == z3.sat else "unknown"),
+                "time": round(time.time() - t0, 3), "backend": "z3-%s" % z3.get_version_string(), "reason": None, "line": None,
+                "clause": "r>=0, 0<eps<1, j first with r-j<eps, c=ceil(r), frac(r) not in (0,eps)  ==>  j == c", "details": ""})
+    # must-fail companion: without excluding the band the statement is false (guards against a vacuous lemma)
+    s = z3.Solver()
+    s.set("timeout", 20000)
+    s.add(r >= 0, eps > 0, eps < 1, first, ceil_is_c, j != c)
+    res = s.check()
+    out.append({"name": "lemma/C20.band-is-necessary(must-be-sat)", "kind": "lemma", "result": "unsat" if res == z3.sat else "sat",
+                "time": 0.0, "backend": "z3", "reason": None, "line": None, "clause": "the same query without the band exclusion must be satisfiable", "details": ""})
+    return out
